@@ -518,3 +518,9 @@ def run(pm, ctx):
     parser_state(pm, ctx, 'C01-R8')
     ctx.import_rules(pm, 'C02', {'C02-R5'}, 'C01-R7',
                      'field listings that legality checks iterate are complete (shared with C02-R5)')
+    from .. import conddrift
+    conddrift.run(pm, ctx, 'C01-R9', 'frontend',
+                  'each spec error is reported under the condition confirmed on the reference tree '
+                  '(canonical path conditions; relation/polarity changes and pure additions or '
+                  'removals of a conjunct are violations, re-spellings are not claimed)',
+                  'reported')
